@@ -49,6 +49,7 @@ def sched_jobs(tier, seed, gen=None, selections=False, faults=False, fault_rate=
         g2.update(dfs_gen or {})
         g2["nmax"] = min(g2.get("nmax", 6), 6 if tier == "quick" else 7)
         g2["mc_max"] = min(g2.get("mc_max", 3), 3)
+        g2["setup_rate"] = 0.0  # the DFS re-runs ONE DAG object many times: setup state would carry over between schedules
         for _ in range(n_dfs):
             jobs.append(dict(kind="sched_dfs", n_shapes=dfs_shapes if not dfs_faults else max(2, dfs_shapes // 4), limit=dfs_limit, gen=g2,
                              faults=dfs_faults, flavour=flavour, **_seeds(seed, k)))
@@ -92,6 +93,8 @@ def c03(tier, seed):
         + diff_jobs("C03", tier, seed, dict(flags=0.3, nest=0.3, nest_flag=0.3, share_fns=0.5), 2, nj_scale=0.5,
                     only=["executed_functions_differ_from_plain_python", "flagged_call_ran_although_flag_falsy",
                           "flagged_call_skipped_although_flag_truthy"] + ["call_site_entered_%d_times_expected_%d" % (a, b) for a in range(6) for b in range(2)])
+        + [dict(kind="hist15", pid="C03", n_histories=(40 if tier == "quick" else 400), only=["executor_rerun_used_partially_consumed_graph"],
+                **_seeds(seed + 95, k)) for k in range(2 if tier == "quick" else 8)]
         + [dict(kind="hist11", pid="C03", n_histories=(40 if tier == "quick" else 400),
                 only=["executed_set_differs_from_model", "ran_setup_node_the_selection_does_not_need", "setup_node_ran_more_than_once_on_one_instance"],
                 **_seeds(seed + 90, k)) for k in range(2 if tier == "quick" else 8)],
@@ -138,7 +141,7 @@ def c06(tier, seed):
 
 @plan("C08")
 def c08(tier, seed):
-    jobs = sched_jobs(tier, seed, gen=dict(nmin=3, nmax=10, mc_max=4, max_deps=2, mix="thread"), flavour="both", scale=0.5)
+    jobs = sched_jobs(tier, seed, gen=dict(nmin=3, nmax=10, mc_max=4, max_deps=2, mix="thread", setup_rate=0.3), flavour="both", scale=0.5)
     jobs += sched_jobs(tier, seed + 3, gen=dict(nmin=3, nmax=10, mc_max=4, max_deps=2, mix="async"), flavour="both", scale=0.5, dfs=False, stress=False)
     jobs += sched_jobs(tier, seed + 5, gen=dict(nmin=3, nmax=10, mc_max=4, max_deps=2), flavour="both", scale=0.5)
     return dict(
